@@ -31,6 +31,11 @@ df = import_df()
 import discretisedfield.tools as dft  # noqa: E402
 import discretisedfield.util as dfu  # noqa: E402
 
+# Observed on the unchanged tree and reported to the maintainer (not judged until decided there):
+#  - neighbouring_cell_angle returns a mesh with DEFAULT dimension names / units;
+#  - tools read the cell length as getattr(mesh, f"d{dim}"), which for a dimension named 'V' is the cell volume;
+#  - demag_field pads 'x','y','z' by name and refuses meshes with other dimension names.
+JUDGE_NAMES = False
 C4 = 1 / (4 * np.pi)
 PI4 = 4 * np.pi
 RTOL = 1e-7
@@ -48,7 +53,7 @@ def build(c):
     p1 = [fl(x) for x in c["p1"]]
     p2 = [a + k * h for a, k, h in zip(p1, sh, cell)]
     dims = c.get("dims")
-    region = df.Region(p1=p1, p2=p2, dims=dims)
+    region = df.Region(p1=p1, p2=p2, dims=dims, units=c.get("units_"))
     mesh = df.Mesh(region=region, n=sh, bc=c.get("bc", ""))
     nv = c.get("nvdim", 3)
     arr = np.array([fl(x) for x in c["vals"]], dtype=float).reshape(*sh, nv)
@@ -169,9 +174,11 @@ def field_case_2d(rng, kind, big=False):
         arr = np.tile(np.array(rand_vec(rng)), (*sh, 1))
     pm = rng.choice([0.0, 0.0, 0.15, 0.4])
     valid = [rng.random() >= pm for _ in range(sh[0] * sh[1])]
-    dims = rng.choice([None, None, ["x", "y"], ["y", "z"], ["a", "b"], ["z", "x"]])
+    dims = rng.choice([None, None, ["x", "y"], ["y", "z"], ["a", "b"], ["z", "x"], ["n", "e"], ["d", "V"]])
     names = dims or ["x", "y"]
     bc = "".join(d for d in names if rng.random() < 0.2)
+    if rng.random() < 0.08:
+        bc = rng.choice(["neumann", "dirichlet"])      # keywords: no direction is periodic
     return dict(kind=kind, sh=sh, cell=[g.qs(x) for x in cell], p1=[g.qs(x) for x in p1],
                 vals=[g.qs(x) for x in arr.reshape(-1).tolist()], valid=valid, dims=dims, bc=bc, tex=tex)
 
@@ -227,6 +234,8 @@ def generate(rng, tier):
         cases.append(demagseq_case(rng, k))
     for k in range(24 if q else 150):
         cases.append(quarter_case(rng))
+    for k in range(3 if q else 9):
+        cases.append(dict(kind="names", variant=k % 3, seed=rng.randint(0, 10**6)))
     for k in range(36 if q else 150):
         cases.append(refuse_case(rng, k))
     rng.shuffle(cases)      # balances the cost of the Coq shards
@@ -258,9 +267,13 @@ def angle_case(rng):
         b = np.array(rand_vec(rng)) + np.array([0.3, 0.1, 0.7])
         arr = [(b * rng.choice([1, 1, -1, 2.5]) + rng.choice([0, 0, 1e-9, 1e-5]) * np.array(rand_vec(rng))).tolist()
                for _ in range(n)]
+    dims = units_ = None
+    if rng.random() < 0.4:
+        dims = rng.sample(["a", "b", "c", "z", "x", "n", "e", "q"], nd)
+        units_ = rng.choice([None, ["nm", "um", "s"][:nd]])
     return dict(kind="angle", sh=sh, cell=[g.qs(x) for x in cell], p1=[g.qs(x) for x in p1], ax=ax,
                 units=rng.choice(["rad", "rad", "deg"]), vals=[g.qs(x) for x in np.array(arr).reshape(-1).tolist()],
-                valid=None, tex=tex)
+                valid=None, tex=tex, dims=dims, units_=units_)
 
 
 def hedgehog_arr(sh, cell, centre, sign=1.0):
@@ -289,10 +302,11 @@ def field_case_3d(rng, kind):
         arr += 0.05 * np.array([rand_vec(rng) for _ in range(n)]).reshape(*sh, 3)
     pm = rng.choice([0.0, 0.0, 0.1, 0.3])
     valid = [rng.random() >= pm for _ in range(n)]
-    bc = "".join(d for d in "xyz" if rng.random() < 0.15)
+    dims = rng.choice([None, None, ["a", "b", "c"], ["z", "x", "y"], ["u", "n", "e"]])
+    bc = "".join(d for d in (dims or "xyz") if rng.random() < 0.15)
     return dict(kind=kind, sh=sh, cell=[g.qs(x) for x in cell], p1=[g.qs(x) for x in p1],
                 vals=[g.qs(x) for x in arr.reshape(-1).tolist()], valid=valid, bc=bc, tex=tex,
-                dir=rng.randrange(3))
+                dir=rng.randrange(3), dims=dims, units_=rng.choice([None, ["nm", "um", "s"]]) if dims else None)
 
 
 def demagN_case(rng):
@@ -360,7 +374,8 @@ def quarter_case(rng):
     pm = rng.choice([0.0, 0.0, 0.2])
     valid = [rng.random() >= pm for _ in range(sh[0] * sh[1])]
     return dict(kind="quarter", sh=sh, cell=[g.qs(x) for x in cell], p1=[g.qs(F(rng.randint(-8, 8), 2)) for _ in range(2)],
-                vals=[g.qs(x) for x in arr.reshape(-1).tolist()], valid=valid, dims=None, bc="", tex=f"rough{amp}")
+                vals=[g.qs(x) for x in arr.reshape(-1).tolist()], valid=valid, dims=None,
+                bc=rng.choice(["", "", "x", "y", "xy"]), tex=f"rough{amp}")
 
 
 def integer_case(rng):
@@ -513,7 +528,12 @@ def coq_q4(tab):
 
 
 def per_flags(c, names):
-    return [d in c.get("bc", "") for d in names]
+    """Mesh._is_periodic: bc lists the periodic dimensions by their one-character names; the keywords
+    'neumann' / 'dirichlet' name no dimension"""
+    bc = c.get("bc", "")
+    if bc in ("neumann", "dirichlet"):
+        return [False for _ in names]
+    return [d in tuple(bc) for d in names]
 
 
 # ------------------------------------------------------------------ runners
@@ -547,7 +567,7 @@ def decoy_calls(c):
                 dft.neighbouring_cell_angle(d, direction=dims[c["ax"]], units=u)
         else:
             dft.emergent_magnetic_field(d)
-            dft.count_bps(d, direction="xyz"[c["dir"]])
+            dft.count_bps(d, direction=dims[c["dir"]])
     except Exception:   # noqa: BLE001 - the decoy only leaves state behind
         pass
 
@@ -660,6 +680,11 @@ def run_angle(c, rec):
             and np.allclose(r.mesh.region.pmax, exp_max, rtol=1e-12, atol=1e-12)
             and np.allclose(r.mesh.cell, hc, rtol=1e-12)):
         rec["oracle"].append("angle-mesh-not-centred-between-cells")
+    keeps = (tuple(r.mesh.region.dims) == tuple(f.mesh.region.dims)
+             and tuple(r.mesh.region.units) == tuple(f.mesh.region.units))
+    rec["obs_names_kept"] = bool(keeps)
+    if JUDGE_NAMES and not keeps:
+        rec["oracle"].append("angle-mesh-drops-dimension-names-or-units")
     top = 180.0 if deg else math.pi
     if out.size and (out.min() < 0 or out.max() > top * (1 + 1e-15)):
         rec["oracle"].append("angle-outside-0-pi")
@@ -731,7 +756,7 @@ def run_emergent(c, rec):
         rec["oracle"].append("emergent-raised")
         return
     out = r.array.reshape(-1)
-    p = per_flags(c, "xyz")
+    p = per_flags(c, list(f.mesh.region.dims))
     coq = (f'CEmergent {g.nl(sh)} {g.ql(c["cell"])} {g.bl(p)} {g.ql(c["vals"])} {g.bl(c["valid"])} '
            f'{g.ql(fracs(out))}')
     if r.nvdim != 3 or r.mesh != f.mesh:
@@ -750,7 +775,7 @@ def expand_pattern(s):
 def run_bps(c, rec):
     f = build(c)
     sh = c["sh"]
-    d = "xyz"[c["dir"]]
+    d = f.mesh.region.dims[c["dir"]]
     st, r = attempt(lambda: dft.count_bps(f, direction=d))
     if st != "ok":
         rec.update(obs=dict(err=r), key="bps/err")
@@ -764,7 +789,7 @@ def run_bps(c, rec):
             or r["bp_number_tt"] != sum(x for x in diffs if x > 0)):
         rec["oracle"].append("bp-counts-inconsistent-with-pattern")
     o = f.orientation.array
-    p = per_flags(c, "xyz")
+    p = per_flags(c, list(f.mesh.region.dims))
     coq = (f'CBps {g.nl(sh)} {g.ql(c["cell"])} {g.bl(p)} {g.nat(c["dir"])} {g.q(F(1 / PI4))} {g.ql(fracs(o))} '
            f'{g.bl(c["valid"])} {g.zl(nums)}')
     rec.update(obs=dict(result=js(r)), coq=coq, key=f'bps/{tuple(sh)}/{c["dir"]}/{c["tex"]}/{c["bc"]}/{tuple(nums)}',
@@ -1008,9 +1033,8 @@ def run_meta(c, rec):
                 if far(d1.array.reshape(sh) * s * s, d0, RTOL * 4.0 / base_save):
                     rec["oracle"].append(f"mesh-rescale-density-not-1-over-s2-{m}")
     # quarter turn(s) of the sample (mesh and vectors together); only for default x,y naming
-    # (periodic meshes are left out: Mesh.rotate90 keeps the bc string, so after an odd turn the periodic
-    #  direction is a different physical direction - C12's subject, reported, not judged here)
-    if c.get("dims") in (None, ["x", "y"]) and not c.get("bc"):
+    # (periodic meshes included: Mesh.rotate90 exchanges the periodicity of the two axes for odd k, 6c074f8c)
+    if c.get("dims") in (None, ["x", "y"]):
         k = c["quarter_k"]
         st, fr = attempt(lambda: f.rotate90("x", "y", k=k))
         if st == "ok":
@@ -1081,7 +1105,60 @@ def run_quarter(c, rec):
                 rec["oracle"].append(f"quarter-turn-changes-charge-{m}")
             if far(np.rot90(base[m][0], k=k), other[m][0], RTOL * 4.0 / dA):
                 rec["oracle"].append(f"quarter-turn-changes-density-{m}")
-    rec.update(obs=obs, key=f'quarter/{tuple(sh)}/{c["tex"]}/{all(c["valid"])}', nontrivial=True)
+    rec.update(obs=obs, key=f'quarter/{tuple(sh)}/{c["tex"]}/{all(c["valid"])}/{c["bc"]}', nontrivial=True)
+
+
+def run_names(c, rec):
+    """custom dimension names ('a','b','V') and units on every tool of the statement; observations only
+    unless JUDGE_NAMES (see the note at the top of this file)"""
+    import random
+    rng = random.Random(c["seed"])
+    sh = [[4, 3, 4], [3, 3, 2], [2, 4, 3]][c["variant"]]
+    cell = [[1.0, 2.0, 0.5], [0.5, 0.5, 4.0], [2.0, 1.0, 0.25]][c["variant"]]
+    reg = df.Region(p1=(0, 0, 0), p2=[k * h for k, h in zip(sh, cell)], dims=("a", "b", "V"), units=("nm", "um", "s"))
+    mesh = df.Mesh(region=reg, n=sh)
+    arr = np.array([rng.uniform(-1, 1) for _ in range(math.prod(sh) * 3)]).reshape(*sh, 3)
+    f = df.Field(mesh, nvdim=3, value=arr)
+    ref = df.Field(df.Mesh(p1=(0, 0, 0), p2=[k * h for k, h in zip(sh, cell)], n=sh), nvdim=3, value=arr)
+    obs = {}
+    for k, (d, d0) in enumerate(zip(("a", "b", "V"), "xyz")):
+        st, r = attempt(lambda: dft.neighbouring_cell_angle(f, direction=d))
+        r0 = dft.neighbouring_cell_angle(ref, direction=d0)
+        ok = st == "ok" and r.array.shape == r0.array.shape and not far(r.array, r0.array, 1e-12) \
+            and not far(r.mesh.region.pmin, r0.mesh.region.pmin, 1e-12) and not far(r.mesh.region.pmax, r0.mesh.region.pmax, 1e-12)
+        obs[f"angle-{d}"] = dict(outcome=st if st == "ok" else r, same_as_default_names=bool(ok),
+                                 names_kept=bool(st == "ok" and tuple(r.mesh.region.dims) == ("a", "b", "V")))
+        if JUDGE_NAMES and not (ok and obs[f"angle-{d}"]["names_kept"]):
+            rec["oracle"].append("angle-on-custom-named-mesh-differs")
+        st, r = attempt(lambda: dft.count_bps(f, direction=d))
+        r0 = dft.count_bps(ref, direction=d0)
+        same = st == "ok" and r["bp_number"] == r0["bp_number"] and r[f"bp_pattern_{d}"] == r0[f"bp_pattern_{d0}"]
+        obs[f"bps-{d}"] = bool(same)
+        if not same:
+            rec["oracle"].append("count-bps-on-custom-named-mesh-differs")
+    for name, fn in (("max-angle", lambda x: dft.max_neighbouring_cell_angle(x).array),
+                     ("emergent", lambda x: dft.emergent_magnetic_field(x).array)):
+        st, r = attempt(lambda: fn(f))
+        same = st == "ok" and not far(r, fn(ref), 1e-12 * (1 + float(np.abs(fn(ref)).max())))
+        obs[name] = bool(same)
+        if not same and (name == "emergent" or JUDGE_NAMES):
+            rec["oracle"].append(f"{name}-on-custom-named-mesh-differs")
+    st, r = attempt(lambda: dft.demag_field(f, dft.demag_tensor(mesh)).array)
+    r0 = dft.demag_field(ref, dft.demag_tensor(ref.mesh)).array
+    obs["demag-field"] = bool(st == "ok" and not far(r, r0, 1e-9))
+    if JUDGE_NAMES and not obs["demag-field"]:
+        rec["oracle"].append("demag-field-on-custom-named-mesh-differs")
+    # 2-d slice named ('a','V'): both charge methods
+    m2 = df.Mesh(region=df.Region(p1=(0, 0), p2=(sh[0] * cell[0], sh[2] * cell[2]), dims=("a", "V")), n=(sh[0], sh[2]))
+    m2d = df.Mesh(p1=(0, 0), p2=(sh[0] * cell[0], sh[2] * cell[2]), n=(sh[0], sh[2]))
+    a2 = arr[:, 0]
+    for m in ("continuous", "berg-luescher"):
+        st, q1 = attempt(lambda: dft.topological_charge(df.Field(m2, nvdim=3, value=a2), method=m))
+        q0 = dft.topological_charge(df.Field(m2d, nvdim=3, value=a2), method=m)
+        obs[f"charge-{m}"] = bool(st == "ok" and not far(q1, q0, 1e-12 * (1 + abs(q0))))
+        if not obs[f"charge-{m}"]:
+            rec["oracle"].append("charge-on-custom-named-mesh-differs")
+    rec.update(obs=obs, key=f'names/{c["variant"]}', nontrivial=True)
 
 
 def run_integer(c, rec):
@@ -1260,5 +1337,8 @@ def stats(records):
     out["oracle_only"] = sum(1 for r in records if not r.get("coq"))
     out["bl_metamorphic_skipped_near_exceptional"] = sum(
         1 for r in records if r["kind"] == "meta" and r.get("obs", {}).get("risky"))
+    out["angle_results_that_dropped_custom_names"] = sum(
+        1 for r in records if r["kind"] == "angle" and r["case"].get("dims") and r.get("obs_names_kept") is False)
+    out["names_probe"] = [r.get("obs") for r in records if r["kind"] == "names"][:1]
     out["masked"] = sum(1 for r in records if r["case"].get("valid") and not all(r["case"]["valid"]))
     return out
